@@ -514,27 +514,34 @@ func (p *parser) readStr(term byte) string {
 		b := p.buf[p.pos]
 		p.pos++
 		if b == term {
-			break
+			return string(p.buf[start : p.pos-1])
 		}
 		if b == '\\' {
 			return p.readEscStr(start, term)
 		}
 	}
-	return string(p.buf[start : p.pos-1])
+	p.raise("string not terminated")
+
+	return ""
 }
 
 func (p *parser) readRegex() *regexp.Regexp {
 	start := p.pos
+	terminated := false
 out:
 	for p.pos < len(p.buf) {
 		b := p.buf[p.pos]
 		p.pos++
 		switch b {
 		case '/':
+			terminated = true
 			break out
 		case '\\':
 			p.pos++ // skip and then continue
 		}
+	}
+	if !terminated {
+		p.raise("regex not terminated")
 	}
 	rx, err := regexp.Compile(string(p.buf[start : p.pos-1]))
 	if err != nil {
@@ -653,7 +660,7 @@ func (p *parser) readToken() []byte {
 }
 
 func (p *parser) readOpArgs(o *op) (eq *Equation) {
-	if p.buf[p.pos] != '(' {
+	if len(p.buf) <= p.pos || p.buf[p.pos] != '(' {
 		p.raise("expected a %s function", o.name)
 	}
 	eq = &Equation{o: o}
